@@ -503,7 +503,9 @@ call_stmt = (
     ) |
     (
         identifier +
-        expr_list[0, 1]
+        # a call without arguments may be followed by the ELSE of a
+        # single-line IF
+        (~else_kw + expr_list)[0, 1]
     )
 ).set_name('call_stmt')
 
